@@ -65,6 +65,8 @@ func (c *compression) compress(req *http.Request, resp *http.Response) bool {
 	}
 
 	resp.Header.Del(keyContentLength)
+	// the length of the compressed body is not known in advance.
+	resp.ContentLength = -1
 	resp.Header.Set(keyContentEncoding, "gzip")
 	resp.Header.Add(keyVary, keyContentEncoding)
 
